@@ -26,6 +26,7 @@ Proof.
   match goal with |- context [Bond.bind ?x _] => destruct x as [id|]; cbn [Bond.bind]; [|discriminate] end.
   destruct (contains (lit "|") r) eqn:Ec.
   - destruct (negb (count_char (ch "|") r =? 2)); [cbn [Bond.bind]; discriminate|].
+    destruct (negb (str_eqb _ (lit "]"))); [cbn [Bond.bind]; discriminate|].
     fold (weight_text r).
     destruct (map_opt py_float (split_ws (strip_chars (lit "|") (weight_text r)))) as [l|] eqn:El; [|cbn [Bond.bind]; discriminate].
     destruct l as [|w [|w2 l']]; cbn [Bond.bind fst snd]; (destruct (_ || _)%bool; [discriminate|]); intros H; injection H as <-; intros _; cbn [d_weight d_trans].
